@@ -4,14 +4,17 @@
 package core
 
 import (
+	"bytes"
 	"crypto/sha256"
 	"encoding/hex"
 	"encoding/json"
 	"fmt"
 	"os"
+	"os/exec"
 	"path/filepath"
 	"sort"
 	"strconv"
+	"strings"
 	"sync"
 	"time"
 )
@@ -293,3 +296,94 @@ func RegisterCmd(name string, f func(args []string) int) { subcmds[name] = f }
 
 // LookupCmd finds a worker sub-command.
 func LookupCmd(name string) func(args []string) int { return subcmds[name] }
+
+// Race pass: harness bodies that a separately built -race binary runs
+// free-running (the cooperative scheduler's hand-offs are happens-before edges
+// that blind the detector).
+var raceBodies = map[string]func(){}
+
+// RegisterRace registers free-running bodies for the race pass of a property.
+func RegisterRace(id string, f func()) { raceBodies[id] = f }
+
+// RaceBodies returns the registered bodies.
+func RaceBodies(id string) func() { return raceBodies[id] }
+
+// RacePass runs the -race binary's free-running pass for id and records every
+// distinct data race as a violation (clause: "does not crash the node").
+func RacePass(rep *Report, id, keyPrefix string) {
+	bin := filepath.Join(Root(), ".build", "vcheck-race")
+	if _, err := os.Stat(bin); err != nil {
+		rep.Set("race_pass", "skipped: "+bin+" not built")
+		return
+	}
+	cmd := exec.Command(bin, "racepass", id)
+	cmd.Env = append(os.Environ(), "GORACE=halt_on_error=0 exitcode=0")
+	var stderr bytes.Buffer
+	cmd.Stderr = &stderr
+	cmd.Stdout = &stderr
+	err := cmd.Run()
+	out := stderr.String()
+	blocks := strings.Split(out, "WARNING: DATA RACE")
+	seen := map[string]bool{}
+	for _, b := range blocks[1:] {
+		// the two access stacks: take the first function line after "Read at"/"Write at"/"Previous ..."
+		var funcs []string
+		lines := strings.Split(b, "\n")
+		for i, l := range lines {
+			t := strings.TrimSpace(l)
+			if strings.HasPrefix(t, "Read at") || strings.HasPrefix(t, "Write at") || strings.HasPrefix(t, "Previous read at") || strings.HasPrefix(t, "Previous write at") {
+				// first frame that is not the Go runtime
+				for j := i + 1; j < len(lines); j += 2 {
+					fn := strings.TrimSpace(lines[j])
+					if fn == "" {
+						break
+					}
+					if strings.HasPrefix(fn, "runtime.") {
+						continue
+					}
+					fn = strings.TrimSuffix(fn, "()")
+					if k := strings.LastIndex(fn, "/"); k >= 0 {
+						fn = fn[k+1:]
+					}
+					funcs = append(funcs, fn)
+					break
+				}
+			}
+		}
+		sort.Strings(funcs)
+		k := keyPrefix + ".race." + strings.Join(funcs, "|")
+		if seen[k] {
+			continue
+		}
+		seen[k] = true
+		if len(b) > 3000 {
+			b = b[:3000]
+		}
+		rep.Violation(Violation{Key: k, Summary: "data race between " + strings.Join(funcs, " and ") + " in the free-running pass (a concurrent map access of this kind is a fatal runtime error when it happens)",
+			Case: map[string]interface{}{"part": "race", "report": b}})
+	}
+	if err != nil && len(blocks) == 1 {
+		tail := out
+		if len(tail) > 2000 {
+			tail = tail[len(tail)-2000:]
+		}
+		if strings.Contains(out, "fatal error") || strings.Contains(out, "panic:") {
+			rep.Violation(Violation{Key: keyPrefix + ".race.crash", Summary: "the free-running pass crashed: " + firstLineOf(tail, "fatal error", "panic:"),
+				Case: map[string]interface{}{"part": "race", "report": tail}})
+		} else {
+			rep.Set("race_pass_error", err.Error()+": "+tail)
+		}
+	}
+	rep.Set("race_pass", map[string]interface{}{"ran": true, "distinct_races": len(seen)})
+}
+
+func firstLineOf(s string, markers ...string) string {
+	for _, l := range strings.Split(s, "\n") {
+		for _, m := range markers {
+			if strings.Contains(l, m) {
+				return strings.TrimSpace(l)
+			}
+		}
+	}
+	return ""
+}
